@@ -397,16 +397,24 @@ def run_check(prop, tier, seed):
     # ---- 6. classify
     known = [k for k in load_known() if k["property"] == prop and k.get("status") == "known"]
 
-    def known_match(op):
+    def known_match(op, ir=None, mr=None, orc=None):
+        """a listed finding suppresses a failure only if the op line is of the listed class AND the failure has the listed
+        signature: the implementation agrees with the model (whose proved negation witnesses predict the behaviour) and
+        the failing oracle is one of the listed ones.  Any other failure on the same inputs is a different violation."""
         for k in known:
-            if re.search(k["match"], op):
-                return k
+            if not re.search(k["match"], op):
+                continue
+            if k.get("requires_model_agreement") and (ir is None or mr is None or ir != mr):
+                continue
+            if k.get("oracle_match") and not (orc and re.search(k["oracle_match"], orc)):
+                continue
+            return k
         return None
 
     reported_known = {}
     viol_inputs = []
     for (op, ir, mr, orc) in oracle_fails:
-        k = known_match(op)
+        k = known_match(op, ir, mr, orc)
         if k:
             reported_known.setdefault(k["id"], (k, op))
             continue
@@ -414,7 +422,7 @@ def run_check(prop, tier, seed):
     for (op, ir, mr) in disagreements:
         if any(v["op"] == op for v in viol_inputs):
             continue
-        k = known_match(op)
+        k = known_match(op, ir, mr, None)
         if k:
             reported_known.setdefault(k["id"], (k, op))
             continue
